@@ -222,6 +222,15 @@ pub fn derive_seed(property: &str, sub: &str, shard: usize, seed: u64) -> [u8; 3
     out
 }
 
+/// the first oracle failure seen by any shard, recorded BEFORE shrinking starts: if the crate under test then hangs
+/// while the failing case is being shrunk (a broken loop condition does that), the watchdog still reports the
+/// violation it has in hand instead of an inconclusive run
+static PENDING: std::sync::Mutex<Option<Failure>> = std::sync::Mutex::new(None);
+
+pub fn pending_failure() -> Option<Failure> {
+    PENDING.lock().ok().and_then(|g| g.clone())
+}
+
 fn known_sig(msg: &str) -> Option<&str> {
     // messages may start with "[sig:<signature>]"
     if msg.starts_with("[sig:") {
@@ -277,6 +286,13 @@ where
                                 stats.borrow_mut().known_excluded += 1;
                             }
                             return Ok(());
+                        }
+                    }
+                    if !failed.get() {
+                        if let Ok(mut g) = PENDING.lock() {
+                            if g.is_none() {
+                                *g = Some(Failure { sub: self.name.to_string(), message: msg.clone(), case: serde_json::to_value(&case).unwrap_or(Value::Null), shard });
+                            }
                         }
                     }
                     failed.set(true);
